@@ -37,7 +37,7 @@ def run(ctx):
   ctx.rule('R36.1', 'Settings::or: every field f of Settings appears in the result; Option fields are self.f.or(source.f) (receiver self), bool fields self.f || source.f, hidden is the union of self.hidden and source.hidden; no field mentions another field')
   ctx.rule('R36.2', 'Settings::merge: from_options(options).or(from_env(env)?) is computed first, the config file is located through that value (config, else config_dir / data_dir, else the default data dir), then .or(config).or_defaults()')
   ctx.rule('R36.3', 'from_options: field f <- options.f (reviewed exceptions chain, hidden, http_port, server_url); from_env: field f <- getter(UPPERCASE(f)) with the getter matching the field type; or_defaults: field f depends only on self.f and its documented inputs')
-  ctx.rule('R36.4', 'no clap Arg::env on any global option (clap would merge the environment below the flags by itself)')
+  ctx.rule('R36.4', 'no clap Arg::env and no clap default value on any global option (clap would merge the environment below the flags by itself; a clap default would sit in the flag layer and shadow the environment and the config file)')
   adt = F.adts.get(S)
   if not ctx.anchor('R36.1', 'struct Settings', adt is not None):
     return
@@ -198,10 +198,15 @@ def run(ctx):
       for c in bb.calls:
         if (c.name or '').endswith('Arg::new') or (c.name or '').endswith('::Arg::new'):
           n_args += 1
+        if re.search(r'Arg::(default_value|default_value_os|default_values|default_values_os|default_missing_value|default_missing_value_os|default_value_if|default_value_ifs)$', c.name or ''):
+          ctx.ob('R36.4', bb.n, 'clap default on a global option', False, 'the flag layer would always carry this value, so the environment and the config file could never set the option (defaults belong to Settings::or_defaults)', where(bb, c.line))
         if re.search(r'Arg::(env|env_os)$', c.name or ''):
           ctx.ob('R36.4', bb.n, 'Arg::env on a global option', False, 'clap would read this option from the environment itself, below the flag but outside Settings::merge', where(bb, c.line))
   ctx.floor('R36.4', 'clap Arg definitions inspected', n_args, 20)
-  ctx.ob('R36.4', 'ord::options::Options', 'no global option declares a clap env source', True, '', nontrivial=False)
+  ctx.ob('R36.4', 'ord::options::Options', 'no global option declares a clap env source or a clap default', True, '', nontrivial=False)
+  # positive control: the rule can see such calls at all — clap-derived argument structs elsewhere in the crate do declare defaults
+  others = sum(1 for b in F.bodies.values() if 'augment_args' in b.n and not b.n.startswith('<ord::options::Options') for c in b.calls if re.search(r'Arg::default_value', c.name or ''))
+  ctx.floor('R36.4', 'clap defaults declared by other argument structs (positive control)', others, 1)
 
 
 # sensitivity pack (thorough tier): each seeded edit must be reported by the named rule instance
